@@ -210,7 +210,12 @@ def run(case, tape: Tape, ctx):
         ctx.probe("poisoned_chunks_later_evaluated")
         if api == "groupby_reduce" and case.get("by_dask") and "expected_groups" not in kw and len(out) == 2 and is_dask_collection(out[1]):
             # second clause: labels discovered at compute time
-            eager = call_eager(case)
+            try:
+                eager = call_eager(case)
+            except Exception as e:  # noqa: BLE001
+                # no eager reference (e.g. no valid label at all): nothing to compare the mapping with
+                ctx.skip_slot(f"eager-failed:{type(e).__name__}")
+                return
             res, labs = np.asarray(comp[0]), np.asarray(comp[1])
             eres, elabs = np.asarray(eager[0]), np.asarray(eager[1])
             rtol, atol = tol_for(func, res.dtype, eres.dtype)
